@@ -51,13 +51,16 @@ def to_dimacs_file(formula, fileorname=None,
     if export_header:
         # remove non ascii text
         for field in formula.header:
-            tmp = "c {}: {}\n".format(field, formula.header[field])
+            tmp = "{}: {}".format(field, formula.header[field])
             tmp = tmp.encode('ascii', errors='replace').decode('ascii')
-            output.write(tmp)
+            # a value spanning several lines stays inside the comments
+            for line in tmp.splitlines():
+                output.write("c " + line + "\n")
         output.write("c\n")
 
     if export_varnames:
         for varid, label in enumerate(formula.all_variable_labels(), start=1):
+            label = " ".join(str(label).splitlines())
             output.write("c varname {0} {1}\n".format(varid, label))
         output.write("c\n")
 
